@@ -7,6 +7,20 @@
 #define STEPF SPEC5322_STEP
 #define AFTER1 STEPF(g_state, g_la)
 
+#ifdef SAFETY_ONLY
+/* C06 variant: memory safety / termination / frame only, independent of the functional specification */
+int is_5322_local(const char *start, const char *end)
+__CPROVER_requires(RANGE_REQ(start, end, MAXLEN))
+__CPROVER_assigns()
+__CPROVER_ensures(__CPROVER_return_value <= 0 && __CPROVER_return_value > -EEAV_MAX)
+;
+
+#define EAV_VERIF_LOOP_is_5322_local \
+    __CPROVER_assigns(cp, ch, qpair, quote) \
+    __CPROVER_loop_invariant(IN_OBJ(cp, start, end) && (quote==0||quote==1) && (qpair==0||qpair==1) && (quote ==> cp > start)) \
+    __CPROVER_decreases(end - cp)
+
+#else
 int is_5322_local(const char *start, const char *end)
 __CPROVER_requires(RANGE_REQ(start, end, MAXLEN))
 __CPROVER_requires(g_state == L_START && g_pos == 0 && g_cur == -1 && g_la == LA_AT(start, end))
@@ -45,13 +59,19 @@ __CPROVER_ensures(__CPROVER_return_value == -EEAV_LPART_UNQUOTED_FWS ==> (L_IS_W
 #define EAV_VERIF_STEP_is_5322_local \
     g_cur = g_la; g_state = STEPF(g_state, g_cur); g_pos++; g_la = LA_AT(cp + 1, end);
 
+#endif
+
 #include <src/is_5322_local.c>
 
 void harness(void)
 {
     const char *s, *e;
     int r = is_5322_local(s, e);
+#ifndef SAFETY_ONLY
     __CPROVER_assert(!(r == 0 && g_pos == g_len && g_len >= 4), "REACH: accepting exit");
     __CPROVER_assert(!(r != 0 && g_pos == g_len && g_len >= 2), "REACH: rejecting exit at the end");
     __CPROVER_assert(!(r != 0 && g_pos < g_len), "REACH: rejecting exit inside");
+#else
+    __CPROVER_assert(r > 0, "REACH: returns");
+#endif
 }
